@@ -16,6 +16,7 @@ var profiles = map[string]Profile{
 	"adversarial": {Name: "adversarial", Blocks: 20, MaxTx: 4, Oracle: true, Wrongness: 20, Adversarial: true, BigPeriods: true, Internal: true, Mint: true},
 	"imported":   {Name: "imported", Blocks: 16, MaxTx: 3, Oracle: true, Wrongness: 10, Faults: true, Imported: true, PeriodMax: 8, VotePeriods: []uint64{1, 1, 2}},
 	"replica":    {Name: "replica", Blocks: 24, MaxTx: 4, Oracle: true, Wrongness: 25, Jail: true, Probono: true, OracleFee: "0.5", Replica: true, MultiTx: true, PeriodMax: 12},
+	"roundtrip":  {Name: "roundtrip", Blocks: 20, MaxTx: 4, Oracle: true, Wrongness: 20, Jail: true, MultiTx: true, Roundtrip: true, PeriodMax: 14, Mint: true},
 	"periods":    {Name: "periods", Blocks: 20, MaxTx: 4, Oracle: true, Wrongness: 5, BigPeriods: true, Internal: true},
 }
 
@@ -33,6 +34,7 @@ type Stats struct {
 	Filled      int            `json:"setrecipients_events"`
 	Nontrivial  int            `json:"nontrivial"`
 	InvariantBroken int        `json:"invariant_broken"`
+	Roundtrips  int            `json:"export_import_round_trips"`
 	Replicas    int            `json:"histories_executed_twice"`
 	HashDiffs   int            `json:"app_hash_differences"`
 	Samples     []string       `json:"samples"`
@@ -104,6 +106,13 @@ func runChainCmd(args []string) {
 					}
 				}
 				st.Replicas++
+			}
+		}
+		if p.Roundtrip && len(obs) > 0 && obs[len(obs)-1].Class == "ok" && obs[len(obs)-1].Kind == "end" {
+			e.RT = e.Roundtrip()
+			st.Roundtrips++
+			if e.RT.Class != "ok" || !e.RT.SameExport {
+				fmt.Printf("ROUNDTRIP case=%d class=%s same_export=%v %s\n", i, e.RT.Class, e.RT.SameExport, e.RT.Log)
 			}
 		}
 		nontrivial := false
